@@ -80,9 +80,11 @@ Definition c01_case (i r : sexp) : verdict :=
                   let compared := List.length (filter (fun x => snd x) res) in
                   match find (fun x => match fst x with Some _ => true | None => false end) res with
                   | Some (Some why, _) =>
-                      if shadowing_risk_prog p then VViol ("class=capture-under-binder " ++ name ++ " " ++ why)
-                      else if calls_main_prog p then VViol ("class=call-to-main-e2e " ++ name ++ " " ++ why)
+                      if calls_main_prog p then VViol ("class=call-to-main-e2e " ++ name ++ " " ++ why)
                       else if negb (args_effect_free p) then VSkip ("mismatch in a program whose effects are not sequenced (argument evaluation order unspecified): " ++ name)
+                      (* former finding capture-under-binder-e2e (repaired in /repo by <commitcap>; no known_findings entry
+                         matches it any more: a plain violation, the tag only describes it) *)
+                      else if shadowing_risk_prog p then VViol ("class=capture-under-binder " ++ name ++ " " ++ why)
                       else VViol ("class=end-to-end-mismatch " ++ name ++ " " ++ why)
                   | _ =>
                       VOk ((if Nat.eqb compared 0 then "nocompare" else "nt") ++ " runs" ++ n_to_string (N.of_nat compared)
